@@ -35,6 +35,7 @@ func suiteConc(c *Ctx) {
 		concHLLSmall(c, g)
 		concCuckoo(c, g)
 		concCuckooRemoveStorm(c, g)
+		concSnapshotVsUpdate(c)
 		concTopK(c, g)
 		for rep := 0; rep < 4; rep++ {
 			concTopKHot(c, []int{2, 4, 8, 16}[rep])
@@ -664,4 +665,84 @@ func concSnapshotReport(c *Ctx) {
 		c.fail([]string{"C07", "C10"}, "conc-export-not-a-snapshot", m, nil)
 	}
 	concSnapshotBad.msgs = nil
+}
+
+// concSnapshotVsUpdate: WriteTo of a structure that is EMPTY (or has just become empty again) while
+// another goroutine makes its first update, through a writer that yields on every Write.  The image
+// is the empty structure or the structure after the update - never a mixture (a header that says
+// "empty" over a payload that is not).  Many short rounds, all five structures.
+type yieldingWriter struct{ buf bytes.Buffer }
+
+func (w *yieldingWriter) Write(p []byte) (int, error) {
+	runtime.Gosched()
+	return w.buf.Write(p)
+}
+
+func concSnapshotVsUpdate(c *Ctx) {
+	type pair struct {
+		name    string
+		writeTo func(io.Writer) (int64, error)
+		update  func()
+	}
+	mk := []func() pair{
+		func() pair {
+			f := gostatix.NewCuckooFilter(8, 2, 3)
+			return pair{"CuckooFilter", f.WriteTo, func() { f.Insert([]byte("first"), false) }}
+		},
+		func() pair {
+			f := gostatix.NewCuckooFilter(4, 2, 3)
+			f.Insert([]byte("gone"), false)
+			f.Remove([]byte("gone"))
+			return pair{"CuckooFilter(emptied)", f.WriteTo, func() { f.Insert([]byte("first"), false) }}
+		},
+		func() pair {
+			t := gostatix.NewTopK(3, 0.5, 0.5)
+			return pair{"TopK", t.WriteTo, func() { t.Insert([]byte("first"), 2) }}
+		},
+		func() pair {
+			s, _ := gostatix.NewCountMinSketch(2, 4)
+			return pair{"CountMinSketch", s.WriteTo, func() { s.Update([]byte("first"), 3) }}
+		},
+		func() pair {
+			h, _ := gostatix.NewHyperLogLog(128)
+			return pair{"HyperLogLog", h.WriteTo, func() { h.Update([]byte("first")) }}
+		},
+		func() pair {
+			f, _ := gostatix.NewMemBloomFilterWithParameters(20, 0.1)
+			return pair{"BloomFilter", f.WriteTo, func() { f.Insert([]byte("first")) }}
+		},
+	}
+	for _, m := range mk {
+		for round := 0; round < 12; round++ {
+			p := m()
+			var before bytes.Buffer
+			if _, err := p.writeTo(&before); err != nil {
+				break
+			}
+			w := &yieldingWriter{}
+			var wg sync.WaitGroup
+			start := make(chan struct{})
+			wg.Add(2)
+			go func() { defer wg.Done(); <-start; safely(func() { p.writeTo(w) }) }()
+			go func() {
+				defer wg.Done()
+				<-start
+				if round%2 == 1 {
+					runtime.Gosched()
+				}
+				safely(p.update)
+			}()
+			close(start)
+			wg.Wait()
+			var after bytes.Buffer
+			p.writeTo(&after)
+			c.rep.Ops["snapshot-vs-first-update"]++
+			if got := w.buf.Bytes(); !bytes.Equal(got, before.Bytes()) && !bytes.Equal(got, after.Bytes()) {
+				c.fail([]string{"C07", "C11"}, "conc-writeto-torn-image", fmt.Sprintf("%s: WriteTo concurrent with the first update of an empty structure wrote an image that is neither the empty structure nor the updated one (%d bytes; empty %d, updated %d)", p.name, len(got), before.Len(), after.Len()),
+					map[string]interface{}{"structure": p.name, "image_hex": hexStr(got), "empty_hex": hexStr(before.Bytes()), "updated_hex": hexStr(after.Bytes())})
+				break
+			}
+		}
+	}
+	c.rep.Cases++
 }
